@@ -983,6 +983,26 @@ def run_density(key):
                 note("density_upper_and_lower_sheet_differ_at_same_XY_cases")
     res["outcomes"].append(digest(np.round(np.nan_to_num(Z, nan=-1.0, posinf=-2.0, neginf=-3.0), 6)))
 
+    # the caller post-processes the arrays it was handed back IN PLACE (mirrors / rescales the
+    # grid, blanks the estimates) and calls again: the second result is the first one again
+    # (seed C20h: the returned grid aliases a module-level cache)
+    if G <= 21:
+        X0, Y0, Z0 = X.copy(), Y.copy(), Z.copy()
+        try:
+            for t in out:
+                arr = np.asarray(t)
+                if arr.flags.writeable:
+                    arr *= -2.0
+            X, Y, Z = X0, Y0, Z0  # (the local names above were views of what was returned)
+            res["n"] += 1
+            _count(res, "density_independent_of_earlier_calls")
+            again = call(data)
+            if isinstance(again, Exception) or not all(np.array_equal(np.asarray(a, float), b, equal_nan=True) for a, b in zip(again, (X0, Y0, Z0))):
+                V("density_independent_of_earlier_calls", "differs_after_caller_modified_returned_arrays", {"max_R2_now": None if isinstance(again, Exception) else float(np.nanmax(np.asarray(again[0], float) ** 2 + np.asarray(again[1], float) ** 2))})
+        except Exception as e:  # read-only results are fine
+            note("returned_arrays_not_writeable_or_error:" + type(e).__name__)
+        out = (X0, Y0, Z0)
+
     # the same call again after calls that pass the flag in another truthy / falsy form
     # (see also run_history, which does this from fresh interpreters)
     if G <= 21:
